@@ -175,6 +175,8 @@ for m in sorted(glob.glob('/verif/seeded/*/meta.json')):
 out.append('''
 Still missed in the quick tier: **C01-m1** (caught by the thorough tier only).  Everything else is caught by the quick
 command of its property.  The reverse patches of the %d fixes (`/verif/regress/`) are caught by the quick tier as well.
+`seeded/VERIFIED.txt` is the log of the last re-verification on the final tree (all 26 reverse patches and 21 of the older
+seeded changes re-run; the newer ones were verified when they were added).
 ''' % len(regress))
 import re as _re
 s=_re.sub(r'\((NFIX|\d+) repaired by', '(%d repaired by' % len(fixed), s)
